@@ -255,11 +255,33 @@ type IK struct {
 	N string
 }
 
+// CK is a comparable key struct whose later components are themselves structs / arrays of structs.
+type CK struct {
+	L  string
+	At Flat
+	Ar [2]IK
+}
+
 type KeyMaps struct {
 	F map[FK]int
 	A map[[2]float32]string
 	I map[IK]string
 	B map[[2]uint8]int
+	C map[CK]int
+}
+
+// WU wraps a type with Equal/Compare methods in a comparable struct; WrapUser holds it next to a slice.
+type WU struct{ V UEq }
+
+type WrapUser struct {
+	X WU
+	L []int
+}
+
+// PB is comparable with ==, but only by the identity of the pointer it holds.
+type PB struct {
+	P *int
+	N int
 }
 
 // Unit has nothing to compare, OnlyPad only padding.
@@ -509,6 +531,7 @@ func structTys() []*Ty {
 		mk("ext.Blank", false, "ext"),
 		mk("ext.Sess", false, "ext", "unexported", "extpriv"),
 		mk("Vers", false, "ext", "ext2", "user"),
+		mk("WrapUser", false, "user"),
 		mk("SameName", false, "ext", "unexported", "extpriv", "samename"),
 		mk("KeyMaps", false),
 		mk("Units", false),
